@@ -52,13 +52,8 @@ def pairs(tier, seed, full_for):
     n = len(TYPES)
     if tier == 'thorough' or full_for:
         return [(l, r) for l in range(n) for r in range(n)]
-    reps = [0, 2, 3, 5, 6, 7, 8, 11, 12, 13]
-    s = set()
-    for l in range(n):
-        for r in reps:
-            s.add((l, r))
-            s.add((r, l))
-    return sorted(s)
+    reps = [2, 3, 6, 7, 8, 11, 13]      # schar uchar int uint long ullong double: every size/signedness class and one float
+    return [(l, r) for l in reps for r in reps]
 
 
 def expr_instances(tier, seed, mode, fam, ops=None, full=False, safety=False):
@@ -73,13 +68,26 @@ def expr_instances(tier, seed, mode, fam, ops=None, full=False, safety=False):
             heavy = opk in (0, 1, 2)
             flt = l >= 12 or r >= 12
             if flt and opk in (0, 1) and mode != 'ONLY_TYPE':
-                continue      # float * and /: SAT/SMT do not finish within the cap (measured); operand routing is covered by + and -
-            backends = ['z3', 'sat'] if heavy and mode != 'ONLY_TYPE' else ['sat', 'z3']
-            L.append(Inst('%s.%s.%s.%s' % (fam, opn, TYPES[l], TYPES[r]), 'h_expr.c', {'LT': l, 'RT': r, 'OPK': opk, 'WANT': result_type(opk, l, r), mode: None},
-                          units=['expr', 'eval', 'type', 'util'], overrides=['fatal', 'xmalloc', 'error'], native_units=NATIVE, unwind=4,
-                          unwindset=['il_run.0:24', 'il_is_stop.0:14'], family=fam + '.' + opn, backends=backends, safety=safety,
-                          timeout=120 if tier == 'quick' else 900, mem_gb=8 if tier == 'quick' else 16,
-                          bound={'operator': opn, 'left': TYPES[l], 'right': TYPES[r], 'values': 'all (symbolic), minus undefined behaviour'}))
+                continue
+            if (l == 13 or r == 13) and opk in (3, 4) and mode != 'ONLY_TYPE' and tier == 'quick':
+                continue      # double-precision adders: minutes per instance on SAT, thorough tier only (float + - stay in quick)      # float * and /: SAT/SMT do not finish within the cap (measured); operand routing is covered by + and -
+            variants = [({}, ['sat'], False, '')]
+            if heavy and mode != 'ONLY_TYPE':
+                # 64-bit multiplier/divider equivalence: SAT back ends do not finish; z3 (+ --slice-formula, which also avoids an smt2_conv
+                # invariant failure on eval.c's constant union) usually answers on the full range in seconds.  A small-range SAT variant
+                # always runs, the full-range z3 variant is "optional" (no verdict within the cap is reported, not an error).
+                variants = [({'SMALLOPS': 10 if tier == 'quick' else 14}, ['sat'], False, '.small'), ({}, ['z3s'], True, '.full')]
+                if opk == 0:
+                    # multiplication: z3 usually answers on the full range in seconds (SAT not even on small ranges), but not reliably under load
+                    variants = [({'SMALLOPS': 10 if tier == 'quick' else 14}, ['z3s'], True, '.small'), ({}, ['z3s'], True, '.full')]
+            for defs_extra, backends, optional, suffix in variants:
+                L.append(Inst('%s.%s.%s.%s%s' % (fam, opn, TYPES[l], TYPES[r], suffix), 'h_expr.c',
+                              dict({'LT': l, 'RT': r, 'OPK': opk, 'WANT': result_type(opk, l, r), mode: None}, **defs_extra),
+                              units=['expr', 'eval', 'type', 'util'], overrides=['fatal', 'xmalloc', 'error'], native_units=NATIVE, unwind=4,
+                              unwindset=['il_run.0:24', 'il_is_stop.0:14'], family=fam + '.' + opn, backends=backends, safety=safety, optional=optional, witness=not (heavy and mode != 'ONLY_TYPE' and (optional or opk == 0)),
+                              timeout=(60 if optional else 240) if tier == 'quick' else 900, mem_gb=8 if tier == 'quick' else 16,
+                              bound={'operator': opn, 'left': TYPES[l], 'right': TYPES[r],
+                                     'values': ('|x| < 2^%d' % defs_extra['SMALLOPS']) if defs_extra else 'all (symbolic), minus undefined behaviour'}))
     return L
 
 
@@ -89,7 +97,7 @@ def cast_instances(tier, seed, mode, fam, safety=False):
         for r in range(len(TYPES)):
             L.append(Inst('%s.cast.%s.to.%s' % (fam, TYPES[l], TYPES[r]), 'h_expr.c', {'LT': l, 'RT': r, 'CASTMODE': None, mode: None},
                           units=['expr', 'eval', 'type', 'util'], overrides=['fatal', 'xmalloc', 'error'], native_units=NATIVE, unwind=4,
-                          unwindset=['il_run.0:24', 'il_is_stop.0:14'], family=fam + '.cast', backends=['sat', 'z3'], safety=safety,
+                          unwindset=['il_run.0:24', 'il_is_stop.0:14'], family=fam + '.cast', backends=['sat'], safety=safety,
                           timeout=120 if tier == 'quick' else 900, mem_gb=8 if tier == 'quick' else 16,
                           bound={'conversion': '%s -> %s' % (TYPES[l], TYPES[r]), 'values': 'all representable (symbolic)'}))
     return L
